@@ -42,6 +42,9 @@ def small_scenario(seed, k):
                   'immediate': rng.random() < 0.3}
     sc['sched'] = {'granularity': 'line', 'max_steps': 400000}
     sc['server']['conns'][0]['play'] = [['ka', 5]] if k % 2 else []
+    if sc['mode'] == 'play-switch':
+        # the play script has just been replaced: no switch will come
+        sc['mode'] = 'plain'
     sc['net'] = {'latency_us': 200}
     return sc
 
